@@ -68,6 +68,7 @@ def steps_program(st, program, sink, with_index, tr, name='out.tdms', after_sess
     streams = {}
     iname = name + '_index'
     call_no = 0
+    tr.arrays['__keep__'] = bool(program.get('keep_objects'))
     for k, session in enumerate(program['sessions']):
         mode = program.get('first_mode', 'w') if k == 0 else 'a'
         if sink in ('simpath', 'realpath'):
@@ -86,8 +87,12 @@ def steps_program(st, program, sink, with_index, tr, name='out.tdms', after_sess
             target = streams[name]
             kw = {'index_file': streams[iname] if with_index else False}
         first = call_no
-        writer = nptdms.TdmsWriter(target, mode=mode, version=program['version'], **kw)
         how = program.get('lifecycle', 'with')
+        if how == 'open-close':
+            # (these callers also name the first argument: the documented signature is TdmsWriter(file, mode, version, index_file))
+            writer = nptdms.TdmsWriter(file=target, mode=mode, version=program['version'], **kw)
+        else:
+            writer = nptdms.TdmsWriter(target, mode=mode, version=program['version'], **kw)
         if how == 'bare' and sink in ('simpath', 'realpath'):
             how = 'open-close'          # a writer on a path has to be opened by someone
         with _Lifecycle(writer, how):
